@@ -247,22 +247,24 @@ def eval_boolexpr(b: BoolExpr, env) -> bool:
 
 
 def eval_criteria(crit, env: Env, current_raw=None) -> bool:
-    """A criteria list is a conjunction.  Every conjunct is evaluated; if one of them is ill-formed
-    or unspecified while another is false, the result depends on evaluation order and is unspecified."""
-    res, errors = [], []
+    """A criteria list is a conjunction: it holds when every conjunct holds.  A conjunct that is false makes the list false, also when a
+    LATER conjunct could not be evaluated (it refers to a parameter this packet does not carry, say): 'criteria all hold' is then simply
+    not the case, and documents rely on an earlier conjunct guarding a later one.  An ill-formed conjunct BEFORE a false one is the one
+    order-dependent situation and stays unspecified."""
+    errors = []
     for c in crit:
         try:
-            if isinstance(c, Cmp):
-                res.append(eval_cmp(c, env, current_raw))
-            else:
-                res.append(eval_boolexpr(c, env))
+            r = eval_cmp(c, env, current_raw) if isinstance(c, Cmp) else eval_boolexpr(c, env)
         except (RefRaise, RefUnspecified) as e:
             errors.append(e)
+            continue
+        if not r:
+            if errors:
+                raise RefUnspecified("conjunction with an ill-formed conjunct before a false one")
+            return False
     if errors:
-        if not all(res):
-            raise RefUnspecified("conjunction with a false and an ill-formed conjunct")
         raise errors[0]
-    return all(res)
+    return True
 
 
 # ----------------------------------------------------------------------------- field decoding
